@@ -301,9 +301,10 @@ def check_bound_plumb(ctx, R):
                 waits += 1
             else:
                 bad = evs
-    tests = [src(n.test) for n in own_nodes(up.node) if isinstance(n, ast.If) and 'self.maxsize' in src(n.test)]
-    strict = any(t.replace(' ', '') in ('len(L)>self.maxsize', 'self.maxsize<len(L)') or
-                 ('>' in t and '>=' not in t) for t in tests)
+    from .idioms import norm
+    import re as _re
+    tests = [norm(n.test, {}) for n in own_nodes(up.node) if isinstance(n, ast.If) and 'self.maxsize' in src(n.test)]
+    strict = any(_re.fullmatch(r'self\.maxsize < len\(\w+\)', t) for t in tests)
     R.ob('BOUND-PLUMB', con, 'full-returns-wait', bad is None and waits > 0 and strict,
          'zip.update does not return condition.wait() when a buffer exceeds maxsize (tests: %s)' % tests,
          ctx.where(up, up.node.lineno), fmt_path(bad) if bad else None, waits)
